@@ -53,6 +53,17 @@ struct CowT {
     bool dead = false;
     explicit CowT(long x): p(x) { ledger().created++; }
     CowT(const CowT& o): p(copy_from(o)) { ledger().created++; }
+    // Recognisable initializer_list constructor (JSON-like / vector<any>-like payloads have one): list-initialisation
+    // from a CowT - `new T{**data}` instead of `new T(**data)` - selects it, and the new object is then a one-element
+    // WRAPPER, not a copy of the committed value: reported as K_FAULT code 9, the value is the sentinel -9999.
+    // Nothing in the unmodified library or in this driver list-initialises a CowT from a CowT (the explicit
+    // CowT(long) keeps `T{n}` away from it), so it is never selected on the unchanged tree.
+    CowT(std::initializer_list<CowT> il): p(-9999L)
+    {
+        (void)il;
+        vs::fault(&p, 9);
+        ledger().created++;
+    }
     // assignment: never used by the unmodified library (a published version is immutable, a private copy is edited
     // through its handle); instrumented - a write window on the destination - so that a library change that
     // assigns into a version in place is observed
